@@ -592,11 +592,12 @@ pub fn process_events(
     input: InputList,
     context: &mut TransformerContext,
 ) -> Result<(OutputList, Option<BoundingBox>)> {
-    if is_real_svg(&input) {
-        if context.get_top_element().is_none() {
-            // if this is the outermost SVG element, we mark the entire input as a 'real' SVG document
-            context.real_svg = true;
-        }
+    // Only the document itself can be a 'real' SVG document. This function is also
+    // called for the content of every container; a namespaced `<svg>` which happens to
+    // be the first child there is passed through on its own (see `Container`), and
+    // must not take its following siblings - or the whole document - with it.
+    if context.at_document_level() && is_real_svg(&input) {
+        context.real_svg = true;
         return Ok((input.into_verbatim_output(), None));
     }
     let mut output = OutputList::new();
